@@ -165,3 +165,96 @@ func checkTasksRestored(w *World, r *Report, loadJob *FieldMap) {
 			"the value stored into the restored job's Tasks ("+w.AP(st.Val)+") is not the slice the loop over the persisted tasks fills: after a restart jobs are reported without (or with other) tasks")
 	}
 }
+
+// tables.tasks-saved: the task list written into a PersistedJob is converted from the job's tasks in this very save: every
+// value it can be derived from is a slice made (or appended to, or returned fresh by a helper) during the save — never a slice
+// read from a field of an object that outlives the save (a cached conversion goes stale whenever something — the load
+// normalisation, a late task event — changes the tasks after it was taken).
+func checkTasksSaved(w *World, r *Report) {
+	pj := w.NamedType("store", "PersistedJob")
+	if pj == nil {
+		r.Undecided("tables.tasks-saved", "save mapper", "-", "type store.PersistedJob not found")
+		return
+	}
+	n := 0
+	for _, fn := range w.ModFuncs {
+		if fn.Pkg == nil || fn.Pkg != w.Pkg("") {
+			continue
+		}
+		allInstrs(fn, func(in ssa.Instruction) {
+			st, ok := in.(*ssa.Store)
+			if !ok {
+				return
+			}
+			fa, ok := st.Addr.(*ssa.FieldAddr)
+			if !ok {
+				return
+			}
+			nt := namedOf(fa.X.Type())
+			if nt == nil || nt.Obj() != pj.Obj() || fieldName(fa.X.Type(), fa.Field) != "Tasks" {
+				return
+			}
+			n++
+			stale := ""
+			seen := map[ssa.Value]bool{}
+			var walk func(v ssa.Value, d int)
+			walk = func(v ssa.Value, d int) {
+				v = w.Resolve(v)
+				if v == nil || seen[v] || d > 12 || stale != "" {
+					return
+				}
+				seen[v] = true
+				switch x := v.(type) {
+				case *ssa.Phi:
+					for _, e := range x.Edges {
+						walk(e, d+1)
+					}
+				case *ssa.Slice:
+					walk(x.X, d+1)
+				case *ssa.Call:
+					if b, ok := x.Call.Value.(*ssa.Builtin); ok && b.Name() == "append" {
+						walk(x.Call.Args[0], d+1)
+						return
+					}
+					if g := x.Call.StaticCallee(); g != nil && g.Blocks != nil && w.InModule(g) {
+						allInstrs(g, func(in ssa.Instruction) {
+							if rt, ok := in.(*ssa.Return); ok {
+								for _, res := range rt.Results {
+									if _, isSl := res.Type().Underlying().(*types.Slice); isSl {
+										walk(res, d+1)
+									}
+								}
+							}
+						})
+					}
+				case *ssa.UnOp:
+					if x.Op != token.MUL {
+						return
+					}
+					switch a := w.resolveAddr(x.X).(type) {
+					case *ssa.Alloc:
+						if a.Referrers() != nil {
+							for _, ref := range *a.Referrers() {
+								if s2, ok := ref.(*ssa.Store); ok && s2.Addr == ssa.Value(a) {
+									walk(s2.Val, d+1)
+								}
+							}
+						}
+					case *ssa.FieldAddr:
+						// a slice read from a field: fine only if the object is itself built in this save (a local record)
+						if _, fresh := w.resolveAddr(a.X).(*ssa.Alloc); !fresh {
+							stale = w.AP(x)
+						}
+					}
+				}
+			}
+			walk(st.Val, 0)
+			r.Check(stale == "", "tables.tasks-saved", FuncName(fn)+": Tasks of the saved job", w.InstrPos(in),
+				"the task list written to the store is converted from the job's tasks during this save",
+				"the task list written to the store can be "+stale+", a slice kept from an earlier conversion: whatever changed the job's tasks since then (normalisation at start-up, a late task event) never reaches the store, the next restart reports another state")
+		})
+	}
+	if n == 0 {
+		r.Undecided("tables.tasks-saved", "save mapper", "-", "no store into PersistedJob.Tasks found")
+	}
+}
